@@ -10,7 +10,7 @@ ID = "C09"
 NEEDS_CLI = True
 RULE = ("op td.hash on accepted C08-style documents with exactly one violation injected at a random position (inside nested structs/arrays): "
         "every width 8..256 x the six boundary values (-2^(N-1)-1, -2^(N-1), 2^(N-1)-1, 2^(N-1), 2^N-1, 2^N) x every spelling (JSON int where it fits, "
-        "float where exact, decimal string, hex string, +, negative string) for intN and uintN; bytesN lengths N-1, N, N+1; fixed array sizes +-1; "
+        "float where exact, decimal string, hex string, +, negative string) for intN and uintN; bytesN lengths N-1, N, N+1; fixed array sizes +-1; declared sizes from 2^31 to beyond 2^64 with short values; "
         "missing / extra member; undefined type (also where no value reaches it: behind empty arrays, 7 malformed/undefined names x 9 shapes); wrong JSON kind; a random sample of the cases is re-run through every sub-command that reaches the same code (vlib/routes.py); non-trivial = distinct document with an injected boundary value or violation; "
         "judge = executable conformance relation of Spec.Eip712 (exact mathematical value of every literal)")
 EXHAUSTIVE_SWEEPS = {"quick": ["32 widths x 6 boundaries x {uint,int} x spellings", "bytes1..32 x {N-1,N,N+1}"],
@@ -82,6 +82,16 @@ def gen(rng, tier):
                     else:
                         d = doc_for("%s[%d]" % (inner, N), [val] * L, nest)
                     cases.append(Case("td.hash " + hx(tdgen.dumps(d)), tags=("fixed-array", "N:%d" % N, "len:%+d" % (L - N))))
+    # declared sizes far beyond any value: the size is a number to compare the element count with, never something to
+    # allocate, multiply or index by
+    BIG = [2 ** 31 - 1, 2 ** 31, 2 ** 32 - 1, 2 ** 32, 2 ** 40, 17592186044416, 2 ** 53, 2 ** 57, 2 ** 58, 2 ** 59 - 1, 2 ** 59, 2 ** 60, 2 ** 62,
+           2 ** 63 - 1, 2 ** 63, 2 ** 64 - 2, 2 ** 64 - 1, 2 ** 64, 2 ** 64 + 1, 10 ** 30]
+    for big in BIG:
+        for t, v in (("uint8[%d]" % big, []), ("uint8[%d]" % big, [1]), ("uint256[%d]" % big, [1, 2]), ("bool[%d][]" % big, [[True]]), ("bool[%d][]" % big, []),
+                     ("bytes32[2][%d]" % big, [["0x" + "11" * 32] * 2]), ("Q[%d]" % big, [{"x": 1}]), ("string[%d][%d]" % (big, big), [[]])):
+            types = {"P": [("a", "string"), ("v", t)], "Q": [("x", "uint8")]}
+            d = {"types": tdgen.types_json(types, [("name", "string")]), "primaryType": "P", "domain": {"name": "d"}, "message": {"a": "x", "v": v}}
+            cases.append(Case("td.hash " + hx(tdgen.dumps(d)), tags=("huge-declared-size",)))
     # an undefined struct type (or a malformed atomic name, which is read as one) that no value ever reaches: behind
     # empty arrays, behind an empty array of a defined struct that refers to it, in the domain-less corner of a nested struct
     J = tdgen.types_json
